@@ -165,6 +165,25 @@ def run(project: Project, rep, tier: str):
         else:
             rep.refuted("PE-INF", fi, fi.node, "keep_inf=False: infinite bars are not removed before the lengths are taken",
                         construct=f"{PE}: inf filter missing")
+    # the normaliser counts the bars that are actually measured (after infinite bars were dropped)
+    I, r = _run(project, {P_DGMS: dgm_input("X"), P_KEEP: Sc(sym.FALSE), P_VAL: NoneV(), P_NORM: Sc(sym.TRUE)}, finite=())
+    es = _elems(r)
+    if es is None or unmodelled_in(es[0]):
+        rep.unmodelled("PE-INF", fi, fi.node, "normalised result with infinite bars present not modelled")
+    else:
+        sum_keys = {x[2] for x in sym.walk(es[0]) if x[0] == "sum"}
+        size_keys = {x[1] for x in sym.walk(es[0]) if x[0] == "size"}
+        raw = ("rows", "X")
+        if size_keys and sum_keys and size_keys <= sum_keys and raw not in size_keys:
+            rep.discharged("PE-INF", fi, fi.node, "normalize=True, keep_inf=False: the entropy is divided by the logarithm of "
+                                                  "the number of bars that remain after the infinite ones are dropped")
+        elif raw in size_keys and raw not in sum_keys:
+            rep.refuted("PE-INF", fi, fi.node, "normalize=True, keep_inf=False: the entropy of the finite bars is divided by the "
+                                               "logarithm of the number of ALL bars (counted before the infinite ones were "
+                                               "dropped): three equal finite bars and one infinite bar give log3/log4, not 1",
+                        construct=f"{PE}: normaliser counts dropped bars")
+        else:
+            rep.unmodelled("PE-INF", fi, fi.node, f"normaliser not recognised (sizes {sorted(map(str, size_keys))[:3]})")
     I, r = _run(project, {P_DGMS: dgm_input("X"), P_KEEP: Sc(sym.TRUE), P_VAL: Sc(sym.Sym("val_inf")),
                           P_NORM: Sc(sym.FALSE)}, finite=())
     es = _elems(r)
@@ -200,7 +219,7 @@ def run(project: Project, rep, tier: str):
             else:
                 rep.refuted("PE-LIST", fi, fi.node, f"entry {k} of the result is not the entropy of diagram {k}: "
                                                     f"{sym.show(e)[:200]}", construct=f"{PE}: list entry {k}")
-    for rname, n in (("PE-FORM", 2), ("PE-INV", 6), ("PE-GUARD", 2), ("PE-INF", 3), ("PE-LIST", 2)):
+    for rname, n in (("PE-FORM", 2), ("PE-INV", 6), ("PE-GUARD", 2), ("PE-INF", 4), ("PE-LIST", 2)):
         rep.floor(rname, n)
     for t in ("numpy.sum", "numpy.log", "numpy.where", "builtins.all", "numpy.array"):
         rep.trust(t)
